@@ -39,6 +39,12 @@ SEEDS = {
  'C13c': ('C13', 'back favor_compile_time init_event_base_case: rows of the machine\'s own internal table are added with push_back instead of push_front', 'fsm-level internal_transition_table with two or more rows for one event under back favor_compile_time: guards tried first-declared-first'),
  'C16c': ('C16', 'back serialize: the front-end (base class) is archived only when the machine is not contained ("serialise the front-end only once")', 'a submachine whose front-end declares do_serialize and holds non-default data at the save point'),
  'C18c': ('C18', 'back dispatch_table make_chain_row_from_map_entry: erase_first_rows<..., number_frows> instead of number_frows-1 (a type computation: every forwarding row for the event is removed)', 'active submachine whose table has two or more trigger types matching one event (exact + base class + Kleene): the event is never forwarded'),
+ 'C02d': ('C02', 'backmp11 history_impl (both shallow variants): on_entry visits with the default sm.visit(visitor) - the recursive mode - instead of visit<active_non_recursive>', 'history submachine entered by a plain transition whose active substate is itself a submachine: leaf entry behaviours run twice'),
+ 'C03d': ('C03', 'backmp11 transition::execute: the after_guard assignment of the active id hoisted before the guard check (a rejected guard leaves the target id behind)', 'active_state_switch_before_transition + a guarded external transition whose guard is false'),
+ 'C06d': ('C06', 'backmp11 favor_runtime_speed needs_forward_transition: has_internal_transitions dropped from the mp_or (a type computation)', 'submachine whose OWN internal_transition_table reacts to an event mentioned nowhere else: never offered the event, outer no_transition fires'),
+ 'C09d': ('C09', 'back row_::execute (action+guard rows): convert_event_and_execute_entry<next_state_type, next_state_type> instead of <next_state_type, T2>', 'outer row with action AND guard into direct<> / fork / entry_pt: the submachine is entered through its initial states'),
+ 'C10d': ('C10', 'back/back11 process_event_internal: completion step only when the event was handled and NOT also deferred', 'two regions: one takes the event into a state with a completion transition, the other defers the same event (result TRUE|DEFERRED)'),
+ 'C11d': ('C11', 'back11 is_event_handling_blocked_helper: the end-interrupt exemption is tested first and wins over the terminate check', 'terminate state and interrupt state active at once in two regions, then the end-interrupt event'),
  'C13b': ('C13', 'backmp11 favor_runtime_speed needs_forward_transition: no longer looks into sub-submachines (a type computation)', 'three-level hierarchy, event only the innermost machine has rows for, middle machine does not mention it'),
  'C14a': ('C14', 'puml parse_row_right: action length clamped to 0 when the guard is written before the action list', 'a transition line of the form  A -> B : ev [guard] / action'),
  'C14c': ('C14', 'functor Internal<> rows with an action always answer HANDLED_TRUE (instead of get_functor_return_value<Action>)', 'state-local internal row whose action defers (Defer or a deferring sequence): answers TRUE, the back-end re-dispatches the deferred event at once'),
